@@ -221,6 +221,9 @@ class Conc:
             if i % 2 == 0:
                 a.append(f'class="rc{i}"')     # classes of the reuse element are inherited by the instance
             return f'<reuse {" ".join(a)}/>{nl}'
+        if k == "void":
+            return self.rnd.choice([f'<g id="n{i}"/>', f'<g id="n{i}"></g>', f'<g id="n{i}"><style>.q{i} {{ fill: red; }}</style></g>',
+                                    f'<g id="n{i}"><defs><rect id="vd{i}" wh="2"/></defs></g>']) + nl
         if k == "config":
             names = {"dl": "depth-limit", "ll": "loop-limit", "vl": "var-limit"}
             a = [f'{names[x]}="{v + (1 if (x == "dl" and self.wrap) else 0)}"' for x, v in n["loc"]]
